@@ -738,7 +738,7 @@ func corrC10(r *Run) {
 	}
 
 	// ---- random histories beyond
-	n := r.N(1500, 20000)
+	n := r.N(1500, 8000)
 	for i := 0; i < n; i++ {
 		name := setNames[r.Rng.Intn(len(setNames))]
 		ks := sets[name]
